@@ -12,6 +12,7 @@ normalisation.  Not decided: which broker *is* the leader (run-time metadata).
 import ast
 
 from ..model import self_attr, unparse, walk_body_shallow
+from .util import *  # noqa: F401,F403
 from .util import at, deferred_origins, value_origins, list_adds, call_name, call_recv, calls_in, kwarg, need, norm, where
 
 TECHNIQUE = "def-use of the grouping key and payload, lock-step append pairing, loop/except fall-through order, who-may-construct"
@@ -93,20 +94,34 @@ def run(ctx):
 
     # ---- R3 lock-step lists
     r = ctx.rule("R3", "inFlight/payloadsList appended together; original_keys appended once per payload, in payload order", 2, "B")
-    dv = unparse(sends[0].stmt.targets[0]) if isinstance(sends[0].stmt, ast.Assign) else None
-    a1 = [cf.nodes[i] for i in sbody if any(call_name(c) == "append" and c.args and norm(c.args[0]) == dv for c in cf.nodes[i].calls())]
-    a2 = [cf.nodes[i] for i in sbody if any(call_name(c) == "append" and c.args and norm(c.args[0]) == lv for c in cf.nodes[i].calls())]
-    ok = len(a1) == 1 and len(a2) == 1 and (any(s == a2[0].id and lab is None for s, lab in cf.succ[a1[0].id]) or any(
-        s == a1[0].id and lab is None for s, lab in cf.succ[a2[0].id])) and cf.dominates([sends[0].id], a1[0].id)
-    r.check(ok, "%s#inflight-payloads-lockstep" % sba.qname, "the list of outstanding requests and the list of their payloads are "
-            "not appended together", where(sba, sends[0].stmt), "a failed request is blamed on another request's payloads")
-    zl = [n for n in cf.nodes if n.kind == "for" and isinstance(n.stmt.iter, ast.Call) and norm(n.stmt.iter.func) == "zip"]
-    inflight = call_recv([c for c in a1[0].calls() if call_name(c) == "append"][0]) if a1 else None
-    plist = call_recv([c for c in a2[0].calls() if call_name(c) == "append"][0]) if a2 else None
-    okz = len(zl) == 1 and norm(zl[0].stmt.iter.args[1]) == plist
-    dl = [x for x in walk_body_shallow(sba.body) if isinstance(x, ast.Assign) and isinstance(x.value, ast.Yield) and isinstance(
-        x.value.value, ast.Call) and call_name(x.value.value) == "DeferredList"]
-    okz = okz and len(dl) == 1 and norm(dl[0].value.value.args[0]) == inflight and norm(zl[0].stmt.iter.args[0]) == unparse(dl[0].targets[0])
+    # positional association (seqsym): the loop over the results binds, for one and the same send-loop iteration, the
+    # (flag, value) DeferredList reports for the request made in that iteration and that iteration's payload list -
+    # whether the code keeps parallel lists, one list of pairs, or comprehensions over them
+    from ..seqsym import Seq
+    sq_ = Seq(ctx, sba)
+    zl, zenv = [], None
+    for n in cf.nodes:
+        if n.kind == "for" and n.id != sl[0].id and n.id not in sbody:
+            env_ = sq_.zip_env(n)
+            if env_ and any(v_[0] == "flag" for k_, v_ in env_.items() if k_ != "#loop"):
+                zl.append(n)
+                zenv = env_
+    flagv = respv = plv = None
+    if len(zl) == 1:
+        for k_, v_ in zenv.items():
+            if k_ == "#loop":
+                continue
+            if v_[0] == "flag" and v_[1] == ("call", sc):
+                flagv = k_
+            elif v_[0] == "value" and v_[1] == ("call", sc):
+                respv = k_
+            elif v_ == ("iter", sl[0].id, lv):
+                plv = k_
+    ok = len(zl) == 1 and zenv["#loop"] == sl[0].id and None not in (flagv, respv, plv)
+    r.check(ok, "%s#inflight-payloads-lockstep" % sba.qname, "the result of each request is not kept together with the payload list of "
+            "that same request (parallel lists appended in lock-step, or one list of pairs)", where(sba, sends[0].stmt),
+            "a failed request is blamed on another request's payloads")
+    okz = ok
     ka = [cf.nodes[i] for i in body if any(call_name(c) == "append" and not isinstance(c.func.value, ast.Subscript) for c in cf.nodes[i].calls())]
     okk = len(ka) == 1 and (any(s == ka[0].id and lab is None for s, lab in cf.succ[apps[0].id]) or any(
         s == apps[0].id and lab is None for s, lab in cf.succ[ka[0].id]))
@@ -138,7 +153,7 @@ def run(ctx):
 
     # ---- R5 accounting
     r = ctx.rule("R5", "a failed broker result puts every payload of that request on the failed list; the error carries both lists", 2, "A")
-    zv = [unparse(e) for e in zl[0].stmt.target.elts] if zl else []
+    zv = [None, plv] if plv else []
     # the operation that records the payloads of one result: adds (payload, <response>) for every payload of that result
     zbody = cf.reach([zl[0].id], avoid=[t for t, lab in cf.succ[zl[0].id] if lab == ("iter", False)]) if zl else set()
     adds = [a for a in list_adds(sba) if a[2] is not None and zv and norm(a[2]) == zv[1] and cf.containing(a[4]) and cf.containing(a[4])[0].id in zbody]
@@ -147,7 +162,6 @@ def run(ctx):
     if ok:
         # recorded for EVERY failed result: the only condition the statement may depend on is the result's own flag
         en = cf.containing(fe[0])[0]
-        flagv = unparse(zl[0].stmt.target.elts[0].elts[0]) if isinstance(zl[0].stmt.target.elts[0], ast.Tuple) else None
         lbody = cf.reach([zl[0].id], avoid=[t for t, lab in cf.succ[zl[0].id] if lab == ("iter", False)])
         deps = sorted(norm(t.stmt.test) for t, lab in cf.control_deps_transitive(en.id, within=lbody) if t.kind == "test")
         ok = flagv is not None and deps in (["not %s" % flagv], ["%s is False" % flagv], ["%s" % flagv])
@@ -183,7 +197,17 @@ def run(ctx):
     r = ctx.rule("R7", "broker-agnostic: all known brokers connected-first, then every bootstrap host, then the unavailable error", 4, "B")
     sbu = ctx.func(KC + "._send_broker_unaware_request")
     cu = ctx.cfg(sbu)
-    ids = [x for x in walk_body_shallow(sbu.body) if isinstance(x, ast.Assign) and norm(x.value) == "list(self._brokers.keys())"]
+    def _all_keys_of(e, table):  # a fresh list of every key of the mapping: list(T), list(T.keys()), [k for k in T]
+        if isinstance(e, ast.Call) and isinstance(e.func, ast.Name) and e.func.id == "list" and len(e.args) == 1:
+            a = e.args[0]
+            if isinstance(a, ast.Call) and isinstance(a.func, ast.Attribute) and a.func.attr == "keys" and not a.args:
+                a = a.func.value
+            return norm(a) == table
+        if isinstance(e, ast.ListComp) and len(e.generators) == 1 and not e.generators[0].ifs and isinstance(e.elt, ast.Name) and isinstance(
+                e.generators[0].target, ast.Name) and e.elt.id == e.generators[0].target.id:
+            return _all_keys_of(ast.Call(func=ast.Name(id="list", ctx=ast.Load()), args=[e.generators[0].iter], keywords=[]), table)
+        return False
+    ids = [x for x in walk_body_shallow(sbu.body) if isinstance(x, ast.Assign) and _all_keys_of(x.value, "self._brokers")]
     srt = [c for c in calls_in(sbu, "sort") if ids and call_recv(c) == unparse(ids[0].targets[0])]
     lp = [n for n in cu.nodes if n.kind == "for" and ids and norm(n.stmt.iter) == unparse(ids[0].targets[0])]
     ok = bool(ids) and len(srt) == 1 and norm(kwarg(srt[0], "reverse") or ast.Constant(value=0)) == "True" and kwarg(srt[0], "key") is not None and len(lp) == 1
